@@ -340,59 +340,7 @@ func runC04(c *engine.Ctx) {
 	c.Floor(n, 4)
 
 	// ---- R4 heartbeat gate ----
-	c.Rule("R4", "Control.lastPing is refreshed in handlePing only after the Ping plugin chain and VerifyPing returned nil; the only other store is in the constructor")
-	handlePing := fn(c, "server.Control.handlePing")
-	lastPing := field(c, "server", "Control", "lastPing")
-	plugPing := method(c, "pkg/plugin/server", "Manager", "Ping")
-	n = 0
-	if handlePing != nil && lastPing != nil && plugPing != nil {
-		isStore := func(in ssa.Instruction) bool {
-			call, ok := in.(ssa.CallInstruction)
-			if !ok {
-				return false
-			}
-			o := engine.CalleeObj(call)
-			if o == nil || o.Name() != "Store" || o.Pkg() == nil || o.Pkg().Path() != "sync/atomic" {
-				return false
-			}
-			args := engine.CallArgs(call)
-			if len(args) == 0 {
-				return false
-			}
-			fv, _ := engine.LoadedField(args[0])
-			return fv == lastPing
-		}
-		var storeFns []string
-		for _, f := range p.RepoFuncs() {
-			engine.ForEachInstr(f, func(in ssa.Instruction) {
-				if !isStore(in) {
-					return
-				}
-				n++
-				name := p.FuncName(f)
-				storeFns = append(storeFns, name)
-				switch {
-				case f == handlePing:
-					c.AllPaths(name, engine.PathCheck{Fn: f, Sink: engine.Is(in), Pred: func(st *engine.PathState) string {
-						if v, k := st.IsNil(extractOf(plugPing, 1)); !(k && v) {
-							return "liveness is refreshed on a path where the Ping plugin chain did not return nil"
-						}
-						if v, k := st.IsNil(resultOf(verifyPing)); !(k && v) {
-							return "liveness is refreshed on a path where VerifyPing did not return nil (an unauthenticated heartbeat keeps the session alive)"
-						}
-						return ""
-					}}, "lastPing refreshed only after VerifyPing==nil")
-				case f.Object() == newControl:
-					c.Hold(name, in.Pos(), 1, nil, "constructor initialises lastPing")
-				default:
-					c.Violate(name, in.Pos(), nil, "lastPing is refreshed outside handlePing/NewControl: liveness can be extended without a verified heartbeat")
-				}
-			})
-		}
-		sort.Strings(storeFns)
-		c.Note("lastPing stores: %s", strings.Join(storeFns, ", "))
-	}
-	c.Floor(n, 2)
+	checkHeartbeatGate(c, "R4")
 
 	// ---- R5 verifier bodies ----
 	c.Rule("R5", "every `return nil` of every method of every auth.Verifier implementation (except the always-pass one) is justified: token — constant-time equality of GetAuthKey(token, m.Timestamp) with m.PrivilegeKey, or (ping/work conn only) the scope is not enabled, with the scope constant of that message; OIDC — the token verifier returned nil error (and, after login, the subject is known)")
@@ -696,4 +644,69 @@ func justifyNil(c *engine.Ctx, st *engine.PathState, f *ssa.Function, mname, sco
 		}
 	}
 	return mname + " can return nil on a path with no successful key comparison, no successful OIDC verification and no disabled-scope test"
+}
+
+// checkHeartbeatGate (C04.R4, C14.R2): server-side liveness is refreshed only by verified heartbeats.
+func checkHeartbeatGate(c *engine.Ctx, rule string) {
+	p := c.P
+	verifyPing := method(c, "pkg/auth", "Verifier", "VerifyPing")
+	newControl := funcObj(c, "server", "NewControl")
+	if verifyPing == nil || newControl == nil {
+		return
+	}
+	n := 0
+	c.Rule(rule, "Control.lastPing is refreshed in handlePing only after the Ping plugin chain and VerifyPing returned nil; the only other store is in the constructor")
+	handlePing := fn(c, "server.Control.handlePing")
+	lastPing := field(c, "server", "Control", "lastPing")
+	plugPing := method(c, "pkg/plugin/server", "Manager", "Ping")
+	n = 0
+	if handlePing != nil && lastPing != nil && plugPing != nil {
+		isStore := func(in ssa.Instruction) bool {
+			call, ok := in.(ssa.CallInstruction)
+			if !ok {
+				return false
+			}
+			o := engine.CalleeObj(call)
+			if o == nil || o.Name() != "Store" || o.Pkg() == nil || o.Pkg().Path() != "sync/atomic" {
+				return false
+			}
+			args := engine.CallArgs(call)
+			if len(args) == 0 {
+				return false
+			}
+			fv, _ := engine.LoadedField(args[0])
+			return fv == lastPing
+		}
+		var storeFns []string
+		for _, f := range p.RepoFuncs() {
+			engine.ForEachInstr(f, func(in ssa.Instruction) {
+				if !isStore(in) {
+					return
+				}
+				n++
+				name := p.FuncName(f)
+				storeFns = append(storeFns, name)
+				switch {
+				case f == handlePing:
+					c.AllPaths(name, engine.PathCheck{Fn: f, Sink: engine.Is(in), Pred: func(st *engine.PathState) string {
+						if v, k := st.IsNil(extractOf(plugPing, 1)); !(k && v) {
+							return "liveness is refreshed on a path where the Ping plugin chain did not return nil"
+						}
+						if v, k := st.IsNil(resultOf(verifyPing)); !(k && v) {
+							return "liveness is refreshed on a path where VerifyPing did not return nil (an unauthenticated heartbeat keeps the session alive)"
+						}
+						return ""
+					}}, "lastPing refreshed only after VerifyPing==nil")
+				case f.Object() == newControl:
+					c.Hold(name, in.Pos(), 1, nil, "constructor initialises lastPing")
+				default:
+					c.Violate(name, in.Pos(), nil, "lastPing is refreshed outside handlePing/NewControl: liveness can be extended without a verified heartbeat")
+				}
+			})
+		}
+		sort.Strings(storeFns)
+		c.Note("lastPing stores: %s", strings.Join(storeFns, ", "))
+	}
+	c.Floor(n, 2)
+
 }
